@@ -120,6 +120,46 @@ func (c *cliEnv) editEvent(tw *TraceWriter, label string, opt ProjOpt, input str
 	tw.emit(ev)
 }
 
+// the same command applied to every tree of a multi-tree input file: one reset + op pair per tree
+func (c *cliEnv) editEventMulti(tw *TraceWriter, label string, inputs []string, op string, argsList []map[string]interface{}, cmdline []string) {
+	in := c.file("in.nw", strings.Join(inputs, "\n")+"\n")
+	out, rc, hung := c.run(append(cmdline, "-i", in)...)
+	var outs []*tree.Tree
+	var perr error
+	if !hung && rc == 0 {
+		outs, perr = parseNewickLines(out)
+	}
+	for i, input := range inputs {
+		lab := fmt.Sprintf("%s", label)
+		pre := project(mustParse(input), ProjOpt{})
+		tw.emit(&Event{Ev: "reset", Case: lab, Op: "Init", Obj: "a", Ok: true, Post: pre, Args: map[string]interface{}{"cli": strings.Join(cmdline, " "), "tree": i}})
+		ev := &Event{Ev: "op", Case: lab, Op: op, Obj: "a", Args: argsList[i]}
+		switch {
+		case hung:
+			ev.Panic, ev.Err = true, "the command did not return"
+		case rc != 0:
+			ev.Ok, ev.Err = false, fmt.Sprintf("exit status %d", rc)
+		case perr != nil || len(outs) != len(inputs):
+			ev.Panic, ev.Err = true, fmt.Sprintf("output is not %d Newick trees: %v", len(inputs), perr)
+		default:
+			ev.Ok = true
+			ev.Post = project(outs[i], ProjOpt{})
+			all := pre.tipNames()
+			ex, nodeok := []string{}, []string{}
+			for _, nm := range all {
+				if ok, err := outs[i].ExistsTip(nm); err == nil && ok {
+					ex = append(ex, nm)
+				}
+				if n, err := outs[i].TipNode(nm); err == nil && n != nil {
+					nodeok = append(nodeok, nm)
+				}
+			}
+			ev.Res = map[string]interface{}{"asked": all, "exists": ex, "tipnode": nodeok}
+		}
+		tw.emit(ev)
+	}
+}
+
 func cliEdit(c *cliEnv, r *rand.Rand, tw *TraceWriter, prop, label string, maxT int) {
 	gp := defaultGen()
 	gp.MinTips, gp.MaxTips = 4, maxT
@@ -152,7 +192,7 @@ func cliEdit(c *cliEnv, r *rand.Rand, tw *TraceWriter, prop, label string, maxT 
 		if revert {
 			cmdline = append(cmdline, "-r")
 		}
-		switch r.Intn(3) {
+		switch r.Intn(4) {
 		case 0: // names on the command line
 			withAbsent := append([]string{}, names...)
 			if r.Intn(4) == 0 {
@@ -163,6 +203,21 @@ func cliEdit(c *cliEnv, r *rand.Rand, tw *TraceWriter, prop, label string, maxT 
 		case 1: // tip file
 			f := c.file("tips.txt", strings.Join(names, "\n")+"\n")
 			c.editEvent(tw, label, ProjOpt{}, input, "RemoveTips", args, append(cmdline, "-f", f), append(all, "zz_absent"))
+		case 2:
+			// several reference trees in one file, each with its own extra tips, against one compared tree
+			core := complement(all, names)
+			comp := append(append([]string{}, core...), "only_in_comp1")
+			cf := c.file("comp.nw", "("+strings.Join(comp, ",")+");\n")
+			var inputs []string
+			var argsList []map[string]interface{}
+			for i := 0; i < 2+r.Intn(2); i++ {
+				si := genSTreeOn(r, &gp, append(append([]string{}, core...), fmt.Sprintf("extra%d_a", i), fmt.Sprintf("extra%d_b", i)), r.Intn(2) == 0, 0, 0)
+				inputs = append(inputs, si.text())
+				argsList = append(argsList, map[string]interface{}{"names": []string{fmt.Sprintf("extra%d_a", i), fmt.Sprintf("extra%d_b", i)}, "revert": false})
+			}
+			if len(core) >= 3 {
+				c.editEventMulti(tw, label, inputs, "RemoveTips", argsList, []string{"prune", "-c", cf})
+			}
 		default:
 			// compared tree: the tips of the input tree that are NOT in the compared tree are removed (with -r: they are
 			// the only ones kept); so the compared tree holds every other tip of the input tree, plus foreign ones
@@ -593,8 +648,22 @@ func cliCalc(c *cliEnv, r *rand.Rand, cw *CalcWriter, prop, label string, maxT i
 			if rooted {
 				args = append(args, "-r")
 			}
+			evargs := map[string]interface{}{"gen": "topologies", "n": n, "rooted": rooted, "cli": true}
+			if r.Intn(2) == 0 {
+				// tip names taken from an input tree
+				names := []string{}
+				for i := 0; i < n; i++ {
+					names = append(names, fmt.Sprintf("sp_%c%d", 'a'+i, i))
+				}
+				tf := c.file("names.nw", "("+strings.Join(names, ",")+");\n")
+				args = []string{"generate", "topologies", "-i", tf}
+				if rooted {
+					args = append(args, "-r")
+				}
+				evargs["names"] = names
+			}
 			out, rc, hung := c.run(args...)
-			ev := &CEvent{Kind: "Topologies", Prop: "C16", Case: label, Args: map[string]interface{}{"gen": "topologies", "n": n, "rooted": rooted, "cli": true}, Hang: hung}
+			ev := &CEvent{Kind: "Topologies", Prop: "C16", Case: label, Args: evargs, Hang: hung}
 			if !hung && rc == 0 {
 				ts, err := parseNewickLines(out)
 				if err == nil {
